@@ -238,6 +238,9 @@ func scopesC05(thorough bool) []Scope {
 	scs = append(scs, Scope{Name: "L-multi-holes", GS: synthGS(2, 2, [2]int64{28, 28}), Spec: lat.Spec{Points: scale(lat.Window(2, 2, 2), 4), MaxK: k(3, 4), Valid: true, MaxHoles: 1, HoleMaxK: 3},
 		IDSets: [][]int{{0, 2}, {1, 2}, {0, 1, 2}}, Cfgs: allCfgs})
 	scs = append(scs, kmpScope(thorough))
+	sw := shellWalkScope(k(8, 9)) // every walk as the shell, fixed hole: several equal / nested outer rings for one hole
+	sw.Cfgs = allCfgs
+	scs = append(scs, sw)
 	return append(scs, scopesRealBlocks(thorough)...)
 }
 
